@@ -3,6 +3,7 @@
 package sgc
 
 import (
+	"strings"
 	"fmt"
 	"os"
 	"runtime/debug"
@@ -46,6 +47,8 @@ type Opts struct {
 	// SkipUnknown: the compiler option that tolerates references into modules that are not loaded (imports of absent
 	// modules, their types and extensions).  It tolerates nothing else: a prefix no import binds is still an error.
 	SkipUnknown bool
+	// CRLF: the texts rendered from the model are given CR LF line ends (Compile only)
+	CRLF bool
 }
 
 // CompileTexts parses the named texts and compiles them.
@@ -107,6 +110,9 @@ func Compile(mods []*sg.Mod, o Opts) Result {
 	for i, m := range mods {
 		names[i] = m.Name
 		texts[i] = m.Text()
+		if o.CRLF {
+			texts[i] = strings.ReplaceAll(texts[i], "\n", "\r\n")
+		}
 	}
 	return CompileTexts(names, texts, o)
 }
